@@ -69,12 +69,51 @@ _TABLE = [
 ]
 
 
+# Guards: an entry may name the comparison(s) that make its sites safe, as
+# regexes over the rendered dominating conditions of the site
+# (idioms.dominating_conditions: `T:Gt(len(packet), size_of())` ..); one regex
+# for all sites of the entry or one per site. A site whose guard is no longer
+# there — weakened, moved behind the access, taken on another buffer — is not
+# covered by the review any more and is reported again.
+_GUARDS = {
+    ("sos_protocol::bindings::relay::RelayPacket::decode_split", "may-panic", "index:index"): [
+        r"^T:Gt\(len\(packet\), size_of\(\)\)$",
+        r"^T:Gt\(len\(packet\), Add\(size_of\(\), cast\(from_le_bytes\(",
+        r"^T:Gt\(len\(packet\), Add\(size_of\(\), cast\(from_le_bytes\(",
+    ],
+    ("sos_protocol::bindings::relay::RelayPacket::decode_split", "unwrap", "unwrap"): r"^T:Gt\(len\(packet\), size_of\(\)\)$",
+    ("sos_protocol::bindings::relay::RelayPacket::decode_split", "assert", "Overflow:Sub:usize"): r"^T:Gt\(len\(packet\), Add\(size_of\(\), cast\(from_le_bytes\(",
+    ("<sos_core::account::AccountId as core::str::traits::FromStr>::from_str", "may-panic", "index:index"): r"^T:starts_with\(s, 0x\)",
+    (FS_LOG + "rewind", "assert", "Overflow:Sub:usize"): r"^T:Gt\(len\(.*leaves.*\), len\(",
+    (FS_LOG + "rewind", "assert", "Overflow:Sub:u64"): r"^T:Lt\(byte_length\(.*\), length\)",
+    ("sos_core::file_identity::FileIdentity::read_slice", "assert", "BoundsCheck"): r"^T:Ge\(len\(buffer\), len\(identity\)\)",
+    ("sos_filesystem::formats::file_identity::read_file_identity_bytes", "assert", "BoundsCheck"): r"^T:Ge\(len\(",
+    ("sos_filesystem::formats::records::EventLogRecord::byte_length", "assert", "Overflow:Sub:u64"): r"^T:Ge\(self\.f0:offset\.f1:end, self\.f0:offset\.f0:start\)",
+    ("sos_server::handlers::websocket::WebSocketAccount::broadcast", "unwrap", "unwrap"): r"^F:is_none\(connection_id\(",
+}
+
+
 def entries():
     return list(_TABLE)
 
 
-def lookup(root, kind, detail, idx):
+def guard_for(root, kind, detail, idx):
+    g = _GUARDS.get((root, kind, detail))
+    if g is None:
+        return None
+    if isinstance(g, list):
+        return g[idx] if idx < len(g) else g[-1]
+    return g
+
+
+def lookup(root, kind, detail, idx, conditions=None):
+    """Reason the site is reviewed safe, or None. When the entry names a guard,
+    `conditions` (rendered dominating conditions of the site) must contain it."""
+    import re as _re
     for (r, k, d, n, reason) in _TABLE:
         if r == root and k == kind and d == detail and idx < n:
+            g = guard_for(root, kind, detail, idx)
+            if g is not None and conditions is not None and not any(_re.search(g, c) for c in conditions):
+                return None
             return reason
     return None
